@@ -66,6 +66,7 @@ type ViolationReport struct {
 	Events    []Event
 	Decisions []int
 	Native    *nativeResult
+	alt       bool // an alternative model for a key already listed
 }
 
 type Report struct {
@@ -198,6 +199,7 @@ func cmdCheck(args []string) int {
 		hs := map[string]interface{}{"harness": h.Name, "paths": len(res.Paths), "wall_s": res.WallS, "truncated": res.Truncated}
 		outcomes := map[string]int{}
 		seenViol := map[string]bool{}
+		altCount := map[string]int{}
 		reach := map[string]int{}
 		var okPaths []*PathResult
 		for _, p := range res.Paths {
@@ -249,6 +251,12 @@ func cmdCheck(args []string) int {
 			for _, v := range p.Violations {
 				key := h.Name + ":" + v.Key
 				if seenViol[key] {
+					// further models for the same finding: alternatives for native confirmation
+					if h.Native && v.HasModel && altCount[key] < 5 && !strings.HasPrefix(v.Key, "assert:E:") {
+						altCount[key]++
+						violCases = append(violCases, nativeCase{Harness: h.Name, Values: v.Model})
+						violRefs = append(violRefs, &ViolationReport{Key: key, Harness: h.Name, Detail: v.Detail, Model: v.Model, Events: p.Events, Decisions: p.Decisions, alt: true})
+					}
 					continue
 				}
 				if !v.HasModel && h.Native && !strings.HasPrefix(v.Key, "assert:E:") {
@@ -361,16 +369,30 @@ func cmdCheck(args []string) int {
 	// native confirmation of violations, then cross-check of passing paths
 	if len(violCases) > 0 {
 		results := runNative(*repo, *verif, violCases, true)
+		primary := map[string]*ViolationReport{}
+		for _, vr := range rep.Violations {
+			primary[vr.Key] = vr
+		}
 		for i, vr := range violRefs {
+			ok := false
 			if i < len(results) && results[i] != nil {
 				vr.Native = results[i]
-				if nativeConfirms(vr, results[i]) {
+				ok = nativeConfirms(vr, results[i])
+			}
+			if !vr.alt {
+				if ok {
 					vr.Confirmed = "native"
-				} else {
+				} else if vr.Confirmed != "native" {
 					vr.Confirmed = "unconfirmed"
 				}
-			} else {
-				vr.Confirmed = "unconfirmed"
+				continue
+			}
+			// an alternative model confirms the finding its key belongs to
+			if ok {
+				if pv := primary[vr.Key]; pv != nil && pv.Confirmed != "native" {
+					pv.Confirmed = "native"
+					pv.Model, pv.Native, pv.Events, pv.Decisions = vr.Model, vr.Native, vr.Events, vr.Decisions
+				}
 			}
 		}
 	}
